@@ -262,6 +262,7 @@ fn to64<F: Float>(v: F) -> f64 {
 }
 
 struct Data<'a, L> {
+    f32_subject: bool,
     xs: Vec<Vec<f64>>, // as seen by the subject
     y: &'a [usize],
     w: Vec<f64>,
@@ -277,6 +278,24 @@ impl<'a, L> Data<'a, L> {
         }
         f
     }
+    /// Closed form of the known rounding shape: `thr` is the midpoint - computed in the subject's
+    /// float type - of two consecutive distinct training values a < b of the feature AND coincides
+    /// with one of them. Some(true): thr == b (the larger one), Some(false): thr == a.
+    fn rounded_midpoint_on_value(&self, feat: usize, thr: f64) -> Option<bool> {
+        let mut v: Vec<f64> = self.xs.iter().map(|r| r[feat]).collect();
+        v.sort_by(|a, b| a.partial_cmp(b).unwrap());
+        v.dedup();
+        for w in v.windows(2) {
+            let mid = if self.f32_subject { ((w[0] as f32 + w[1] as f32) / 2.0f32) as f64 } else { (w[0] + w[1]) / 2.0 };
+            if mid == thr && thr == w[1] {
+                return Some(true);
+            }
+            if mid == thr && thr == w[0] {
+                return Some(false);
+            }
+        }
+        None
+    }
     fn weight(&self, rows: &[usize]) -> f64 {
         rows.iter().map(|&r| self.w[r]).sum()
     }
@@ -290,9 +309,9 @@ impl<'a, L> Data<'a, L> {
 
 /// Descends like a prediction would; `strict`: go left iff x < threshold, else iff x <= threshold.
 /// Returns the reached leaf and whether some node on the way had x == threshold.
-fn descend<'t, F: Float, L: Label + std::fmt::Debug>(root: &'t TreeNode<F, L>, x: &[f64], strict: bool) -> Option<(&'t TreeNode<F, L>, bool)> {
+fn descend<'t, F: Float, L: Label + std::fmt::Debug>(root: &'t TreeNode<F, L>, x: &[f64], strict: bool) -> Option<(&'t TreeNode<F, L>, Vec<(usize, f64)>)> {
     let mut node = root;
-    let mut touched = false;
+    let mut touched: Vec<(usize, f64)> = Vec::new();
     loop {
         if node.is_leaf() {
             return Some((node, touched));
@@ -301,7 +320,7 @@ fn descend<'t, F: Float, L: Label + std::fmt::Debug>(root: &'t TreeNode<F, L>, x
         let t = to64(thr);
         let v = *x.get(f)?;
         if v == t {
-            touched = true;
+            touched.push((f, t));
         }
         let left = if strict { v < t } else { v <= t };
         let ch = node.children();
@@ -333,7 +352,7 @@ fn runaway_chain<F: Float, L: Label + std::fmt::Debug>(tree: &DecisionTree<F, L>
         let l: Vec<usize> = rows.iter().cloned().filter(|&r| data.xs[r][feat] <= thr).collect();
         let r: Vec<usize> = rows.iter().cloned().filter(|&r| data.xs[r][feat] > thr).collect();
         if l.is_empty() || r.is_empty() {
-            let narrow = r.is_empty() && l.iter().any(|&i| data.xs[i][feat] == thr) && l.iter().any(|&i| data.xs[i][feat] < thr);
+            let narrow = r.is_empty() && data.rounded_midpoint_on_value(feat, thr) == Some(true) && l.iter().any(|&i| data.xs[i][feat] == thr) && l.iter().any(|&i| data.xs[i][feat] < thr);
             let vals: Vec<f64> = rows.iter().map(|&i| data.xs[i][feat]).collect();
             return Some((
                 deepest,
@@ -484,7 +503,10 @@ fn check_one<F: Float, L: Label + Default + std::fmt::Debug>(
                 // rows of this node, so the documented rule sends every row left and the right side is empty
                 let narrow = match (&it.rows, lc, rc) {
                     (Some(rows), Some(_), None) if feat < d && !rows.is_empty() => {
-                        rows.iter().all(|&r| data.xs[r][feat] <= thr) && rows.iter().any(|&r| data.xs[r][feat] == thr) && rows.iter().any(|&r| data.xs[r][feat] < thr)
+                        data.rounded_midpoint_on_value(feat, thr) == Some(true)
+                            && rows.iter().all(|&r| data.xs[r][feat] <= thr)
+                            && rows.iter().any(|&r| data.xs[r][feat] == thr)
+                            && rows.iter().any(|&r| data.xs[r][feat] < thr)
                     }
                     _ => false,
                 };
@@ -582,10 +604,11 @@ fn check_one<F: Float, L: Label + Default + std::fmt::Debug>(
             // the partition a strict comparison would give (only used to characterise a failure)
             let ls: Vec<usize> = rows.iter().cloned().filter(|&r| data.xs[r][feat] < thr).collect();
             let rs: Vec<usize> = rows.iter().cloned().filter(|&r| data.xs[r][feat] >= thr).collect();
-            let on_value = ls.len() != l.len();
-            if on_value {
+            if ls.len() != l.len() {
                 st.thresholds_equal_to_a_training_value += 1;
             }
+            // known shape only: the threshold is a rounded midpoint that landed on the larger value
+            let on_value = ls.len() != l.len() && data.rounded_midpoint_on_value(feat, thr) == Some(true);
             let (wl, wr) = (data.weight(&l), data.weight(&r));
             let mut sides_ok = true;
             if l.is_empty() || r.is_empty() || wl < mwl || wr < mwl {
@@ -731,16 +754,18 @@ fn check_one<F: Float, L: Label + Default + std::fmt::Debug>(
             continue;
         }
         if let Some((_, touched)) = descend(root, &data.xs[i], false) {
-            if touched {
+            if !touched.is_empty() {
                 st.rows_exactly_on_a_threshold += 1;
             }
         }
         let Some(exp) = &expected[i] else { continue };
         if obs != exp {
             let strict = descend(root, &data.xs[i], true);
-            let lax_touched = descend(root, &data.xs[i], false).map(|x| x.1).unwrap_or(false);
+            // narrow signature: the row sits exactly on thresholds that are rounded midpoints coinciding
+            // with a training value, and the observed label is that of the leaf reached with `<`
+            let lax_touched = descend(root, &data.xs[i], false).map(|x| x.1).unwrap_or_default();
             let narrow = match strict {
-                Some((leaf, _)) => lax_touched && leaf.prediction().as_ref() == Some(obs),
+                Some((leaf, _)) => !lax_touched.is_empty() && lax_touched.iter().all(|&(f, t)| data.rounded_midpoint_on_value(f, t).is_some()) && leaf.prediction().as_ref() == Some(obs),
                 None => false,
             };
             let sig = if narrow { "predict.training_row_equal_to_threshold_sent_right" } else { "predict.training_row_wrong_leaf" };
@@ -753,7 +778,7 @@ fn check_one<F: Float, L: Label + Default + std::fmt::Debug>(
                     data.y[i],
                     exp,
                     obs,
-                    if narrow { " = the leaf reached when a value equal to the threshold goes right (`<` instead of `<=`)" } else { "" }
+                    if narrow { " = the leaf reached when a value equal to the threshold goes right (`<` instead of `<=`); the threshold is a midpoint of adjacent floats that rounded onto a training value" } else { "" }
                 ),
                 json!({"row": i}),
             );
@@ -779,7 +804,7 @@ fn run_typed<F: Float, L: Label + Default + std::fmt::Debug>(case: &Case, names:
     let mut distinct = case.y.clone();
     distinct.sort();
     distinct.dedup();
-    let data = Data { xs, y: &case.y, w, names, n_classes };
+    let data = Data { f32_subject: case.float == "f32", xs, y: &case.y, w, names, n_classes };
     let trace = std::env::var("C14_TRACE").is_ok();
     for (ci, cfg) in case.configs.iter().enumerate().skip(start) {
         sink(Event::Start(ci));
@@ -1040,9 +1065,13 @@ fn enumerate_cases(ctx: &Ctx) -> Vec<Lite> {
     let n_a = ctx.pick(5, 6);
     for n in 1..=n_a {
         let sets = datasets(3, n, 6);
-        let mut vars = vec![v("f64", "usize", 0, 0, 0), v("f64", "usize", 1, 0, 0)];
+        // quick: the largest n runs unweighted on the full grid and weighted on the small grid
+        let mut vars = vec![v("f64", "usize", 0, 0, 0)];
         if n < n_a || ctx.thorough() {
+            vars.push(v("f64", "usize", 1, 0, 0));
             vars.push(v("f64", "usize", 2, 0, 0));
+        } else {
+            vars.push(v("f64", "usize", 1, 1, 0));
         }
         if n < n_a {
             vars.push(v("f64", "string", 0, 0, 0));
@@ -1083,8 +1112,10 @@ fn enumerate_cases(ctx: &Ctx) -> Vec<Lite> {
         let sets = datasets(9, n, 6);
         let mut vars = vec![v("f64", "usize", 0, 0, 0)];
         if n <= 3 {
-            vars.push(v("f64", "usize", 1, 0, 0));
             vars.push(v("f32", "bool", 0, 0, 0));
+        }
+        if n <= 2 || (n == 3 && ctx.thorough()) {
+            vars.push(v("f64", "usize", 1, 0, 0));
         }
         push_family(&mut out, "2f_lattice3x3", false, &alpha_d, &sets, &vars);
     }
@@ -1100,7 +1131,10 @@ fn enumerate_cases(ctx: &Ctx) -> Vec<Lite> {
         let alpha: Vec<Vec<f64>> = (0..4).map(|k| vec![base + k as f64 * ulp]).collect();
         for n in 2..=ctx.pick(3, 4) {
             let sets = datasets(4, n, 3);
-            let vars = vec![v(fl, "usize", 0, 1, 0), v(fl, "string", 1, 1, 0)];
+            let mut vars = vec![v(fl, "usize", 0, 1, 0)];
+            if n <= 2 || ctx.thorough() {
+                vars.push(v(fl, "string", 1, 1, 0));
+            }
             push_family(&mut out, fam, true, &alpha, &sets, &vars);
         }
     }
